@@ -369,9 +369,19 @@ class LoopMixin:
             self.leaves(carried[name], il, name)
         loop_key = (gk, tuple(tl), tuple(il))
         rec.key = loop_key
-        for name in sorted(rec.transfer):
+        shared = []
+        for name in sorted(rec.transfer, key=lambda n: (n not in carried, n)):
             proto = rec.transfer[name]
-            post = self.fix_like(proto, name, loop_key)
+            lk = []
+            self.leaves(proto, lk, "")
+            post = None
+            for k0, p0 in shared:
+                if key_equiv(tuple(lk), k0):
+                    post = p0   # same transfer => same value when the loop exits
+                    break
+            if post is None:
+                post = self.fix_like(proto, name, loop_key)
+                shared.append((tuple(lk), post))
             rec.post[name] = post
             self._set_var(frame, name, post)
 
